@@ -557,6 +557,18 @@ func (n *normalizer) hoistTargets(exprs []ast.Expr) ([]*ast.CallExpr, bool) {
 		})
 		return found
 	}
+	seenImpure := false // a call with possible side effects has been evaluated before this point
+	harmless := func(x *ast.CallExpr) bool {
+		if tv, has := n.pkg.TypesInfo.Types[x.Fun]; has && tv.IsType() {
+			return true
+		}
+		if id, isId := x.Fun.(*ast.Ident); isId {
+			if _, isB := n.pkg.TypesInfo.Uses[id].(*types.Builtin); isB && (id.Name == "len" || id.Name == "cap" || id.Name == "min" || id.Name == "max") {
+				return true
+			}
+		}
+		return false
+	}
 	var walk func(e ast.Expr)
 	walk = func(e ast.Expr) {
 		if e == nil || !ok {
@@ -571,40 +583,21 @@ func (n *normalizer) hoistTargets(exprs []ast.Expr) ([]*ast.CallExpr, bool) {
 						ok = false
 					}
 				}
+				if seenImpure {
+					ok = false // moving the target in front of the statement would overtake an earlier call
+				}
 				targets = append(targets, x)
 				return
 			}
-			if !contains(x) {
-				// a call that is evaluated among the targets: only harmless ones may stay
-				if tv, has := n.pkg.TypesInfo.Types[x.Fun]; has && tv.IsType() {
-					for _, a := range x.Args {
-						walk(a)
-					}
-					return
-				}
-				if id, isId := x.Fun.(*ast.Ident); isId {
-					if _, isB := n.pkg.TypesInfo.Uses[id].(*types.Builtin); isB && (id.Name == "len" || id.Name == "cap" || id.Name == "min" || id.Name == "max") {
-						return
-					}
-				}
-				if len(targets) > 0 || true {
-					// any other call before or between targets would be reordered
-					ok = ok && false
-				}
-				return
-			}
-			// ancestor of a target: its other operands must be pure
-			if sel, isSel := x.Fun.(*ast.SelectorExpr); isSel {
-				if n.pkg.TypesInfo.Selections[sel] != nil && !n.pureArg(sel.X) {
-					ok = false
-				}
+			// operands first (receiver, then arguments), then the call itself
+			if sel, isSel := x.Fun.(*ast.SelectorExpr); isSel && n.pkg.TypesInfo.Selections[sel] != nil {
+				walk(sel.X)
 			}
 			for _, a := range x.Args {
-				if contains(a) {
-					walk(a)
-				} else if !n.pureArg(a) {
-					ok = false
-				}
+				walk(a)
+			}
+			if !harmless(x) {
+				seenImpure = true
 			}
 		case *ast.BinaryExpr:
 			if x.Op == token.LAND || x.Op == token.LOR {
@@ -618,7 +611,8 @@ func (n *normalizer) hoistTargets(exprs []ast.Expr) ([]*ast.CallExpr, bool) {
 			walk(x.Y)
 		case *ast.UnaryExpr:
 			if x.Op == token.ARROW {
-				ok = ok && !contains(x)
+				walk(x.X)
+				seenImpure = true
 				return
 			}
 			walk(x.X)
